@@ -3,6 +3,7 @@ Correspondence: Base64::encode / Base64::decode (real code) vs Rws.Base64 (Lean 
 oracle on the implementation alone: Python's base64 module + the property's reject rule."""
 import base64, itertools
 from vlib import common as C
+from vlib import gen_c18 as G
 
 ALPHABET = 'ABCDEFGHIJKLMNOPQRSTUVWXYZabcdefghijklmnopqrstuvwxyz0123456789+/'
 DRIVERS = ['Base64']   # model driver files this check runs: scopes translator failures to the tables they (and the proofs) import
@@ -17,7 +18,14 @@ def has_bad(text):
 def run(res, tier, seed):
     rng = C.Rng(seed)
     lines, meta = [], []   # meta: (kind, payload)
-    def enc(b): lines.append('b64enc ' + C.hx(b)); meta.append(('enc', b))
+    # decoding is quadratic in the real code: in quick, of the inputs above 10 000 bytes only those of 2^k + 1, 3 * 2^k + 1 and 65 536 bytes
+    # are decoded again
+    def again(n): return n > 2 and not (tier == 'quick' and n > 10000 and n not in (12289, 16385, 24577, 32769, 49153, 65536))
+    def enc(b):
+        lines.append('b64enc ' + C.hx(b)); meta.append(('enc', b))
+        # decode(encode(x)) = x, asked in the same run: the reference text of x decodes to x (the encoder's own answer is compared
+        # with the reference text below; where it differs, it is decoded in a second run)
+        if again(len(b)): dec(G.b64(b), 'roundtrip')
     def dec(t, origin=None): lines.append('b64dec ' + C.hx(t.encode('utf-8'))); meta.append(('dec', (t, origin)))
 
     # 1. exhaustive: every input of length 0..2; length 3 through the block op (below)
@@ -46,6 +54,14 @@ def run(res, tier, seed):
         src = rng.choice(g)
         tail = rng.choice([src[:1], src[:2], src[1:], src[2:], src[1:2], b''])
         enc(body + tail)
+    # 2c. enumerated encoder classes (vlib/gen_c18.py, audit of the generator): one input of every length at which an index, a group
+    #     count, an output length or a block size changes representation - with the three lengths ending at 64 KiB in BOTH tiers -,
+    #     ramps, the alphabet spelled out, long runs of one byte / one group / two groups, inputs whose groups are related
+    rng2 = C.Rng(seed).fork('c18-audit')
+    for n in G.enc_sizes(tier):
+        enc(rng2.bytes(n))
+        if tier != 'quick' or n < 3000: enc(bytes([rng2.below(256)]) + bytes(n - 1)); enc(bytes([0xff]) * n)
+    for cls, b in G.enc_structured(rng2, tier): enc(b)
     # 3. decoder: valid texts, every single-character corruption, padding shapes
     valid = []
     for n in list(range(0, 10)) + [31, 32, 33]:
@@ -67,21 +83,49 @@ def run(res, tier, seed):
     for i in range(500 if tier == 'quick' else 20000):
         n = rng.range(0, 24)
         dec(''.join(rng.choice(ALPHABET + '====é!\n ') for _ in range(n)), 'random')
+    # 3b. the reference text of EVERY input of 1 and 2 bytes decodes to that input ('xx==' and 'xxx=' have their own branch in the
+    #     decoder; the round trip asked by enc() starts at 3 bytes)
+    for a in range(256): dec(G.b64(bytes([a])), 'valid')
+    for a in range(256):
+        for b in range(256): dec(G.b64(bytes([a, b])), 'valid')
+    # 3c. enumerated decoder classes (vlib/gen_c18.py): bad characters alone; every character U+0080..U+01FF and wider characters
+    #     whose low bits spell an alphabet character, '=', '-' or '_', one and several per text; blanks before, after and inside
+    #     valid text, wrapped lines, armour, text after the padding, URL-safe texts, two bad characters, a bad character far inside
+    #     a long text; quartets with unused bits set (compared with the model only)
+    for cls, t in G.dec_texts(rng2, tier, valid):
+        dec(t, 'valid' if cls.startswith('valid') else cls)
+    for t in G.noncanonical(rng2, tier): dec(t, 'unused-bits')
     # 4. length-3 block op: all 256 third bytes for a given (a, b)
     pairs = [(a, b) for a in range(256) for b in range(256)]
     if tier == 'quick':
         rng.shuffle(pairs); pairs = pairs[:512]
-    for a, b in pairs:
-        lines.append('b64x3 ' + bytes([a, b]).hex()); meta.append(('x3', (a, b)))
+        drawn = set(pairs)
+        pairs += [p for p in G.x3_pairs() if p not in drawn]
+    x3_lines = ['b64x3 ' + bytes([a, b]).hex() for a, b in pairs]
+    x3_meta = [('x3', p) for p in pairs]
+    # order only: the costly lines (block ops, long texts) are dealt evenly over the list, which the runner cuts into contiguous shards
+    heavy = [i for i, ln in enumerate(lines) if len(ln) > 2000]
+    hs = set(heavy)
+    order = G.spread([('l', i) for i in range(len(lines)) if i not in hs],
+                     [(('x', j), G.cost(x3_lines[j])) for j in range(len(x3_lines))] + [(('l', i), G.cost(lines[i])) for i in heavy], C.NCPU)
+    lines = [(lines[i] if k == 'l' else x3_lines[i]) for k, i in order] + x3_lines[-1:]
+    meta = [(meta[i] if k == 'l' else x3_meta[i]) for k, i in order] + x3_meta[-1:]
 
     impl, model = C.run_both(lines)
     res.rule = ('encode: exhaustive over all byte strings of length 0..2 (65 793) plus %s 2-byte prefixes x all 256 third '
                 'bytes through the block op b64x3, plus random strings of every length residue up to 64 KiB, constant fills, all strings of length 4..8 over two three-byte alphabets containing 0 and periodic strings whose tail repeats part of an earlier group; decode: valid '
                 'texts, every single-character corruption/deletion/insertion, all strings of length<=%d over {A,z,=,!}, random '
-                'strings; a case is non-trivial when its input is non-empty; distinct = distinct protocol lines'
-                % ('all 65 536' if tier == 'thorough' else '512 sampled', 5 if tier == 'quick' else 6))
+                'strings; enumerated classes (vlib/gen_c18.py): encode - one input of every length 2^k-1..2^k+1 and 3*2^k-1..3*2^k+1 up to 64 KiB '
+                '(65 534, 65 535 and 65 536 bytes in both tiers), 765..771 bytes, ramps, the alphabet spelled out, long runs of one byte / one '
+                'group / two groups, a group followed by a small change of it and a tail taken from either; decode - the reference text of '
+                'every 1- and 2-byte input, bad characters alone and in partial chunks, every character U+0080..U+01FF at every place of a '
+                'quartet of each padding form, 2-/3-/4-byte characters whose low bits spell an alphabet character or = - _ (one and several '
+                'per text), blanks and blank sequences before / after / inside valid text, wrapped lines, armour, text after the padding, '
+                'URL-safe texts, two bad characters, one bad character far inside texts of 348..5464 characters, all xy== quartets; '
+                'a case is non-trivial when its input is non-empty; distinct = distinct protocol lines'
+                % ('all 65 536' if tier == 'thorough' else '512 sampled + 496 chosen (both bytes on mask boundaries; a = b)', 5 if tier == 'quick' else 6))
     res.exhaustive = ('all inputs of length 0..3 bytes (16 843 009) for encode and decode(encode)' if tier == 'thorough'
-                      else 'all inputs of length 0..2 bytes (65 793) for encode')
+                      else 'all inputs of length 0..2 bytes (65 793) for encode and for decode of the reference text')
     C.compare(res, lines, impl, model, 'Base64', nontrivial=lambda ln, a: not ln.endswith(' -'))
     for ln, (kind, pl), a in zip(lines, meta, impl):
         if a.startswith('panic') or a.startswith('abort'):
@@ -107,24 +151,27 @@ def run(res, tier, seed):
             if has_bad(t):
                 if a != 'err':
                     res.fail('decode-accepts-bad-char', ln, a, None, f'text {t!r} has a character outside the alphabet but decode returned {a}')
-            elif origin == 'valid':
-                want = 'ok ' + C.hx(base64.b64decode(t))
+            elif origin in ('valid', 'roundtrip'):
+                want = 'ok ' + C.hx(base64.b64decode(t, validate=True))
                 if a != want:
-                    res.fail('roundtrip', ln, a, None, f'expected {want}')
+                    res.fail('roundtrip', ln, a[:200], None, f'expected {want[:200]}')
             elif t.count('=') >= 3 and len(t) == 4 and a != 'err':
                 res.fail('decode-accepts-overpadded', ln, a, None, 'quartet with three or more = accepted')
-    # also: decode(encode(x)) for the random strings, through the implementation alone
+    # also: decode(encode(x)) through the implementation alone, where the encoder's answer is not the reference text decoded above
     rt_lines, rt_want = [], []
     for (kind, pl), a in zip(meta, impl):
-        if kind == 'enc' and a.startswith('ok') and len(pl) > 2:
+        if kind == 'enc' and a.startswith('ok') and again(len(pl)) and a != 'ok ' + C.hx(base64.b64encode(pl)):
             rt_lines.append('b64dec ' + a[3:]); rt_want.append('ok ' + C.hx(pl))
+    order = G.spread([], [(i, G.cost(ln)) for i, ln in enumerate(rt_lines)], C.NCPU)
+    rt_lines = [rt_lines[i] for i in order]; rt_want = [rt_want[i] for i in order]
     i2, m2 = C.run_both(rt_lines)
     C.compare(res, rt_lines, i2, m2, 'Base64')
     for ln, a, w in zip(rt_lines, i2, rt_want):
-        res.count('roundtrip')
+        res.count('roundtrip of a wrong encoding')
         if a != w:
             res.fail('roundtrip', ln[:120], a[:80], None, 'decode(encode(x)) != x')
-    res.sample({'op': lines[700], 'implementation': impl[700], 'model': model[700]})
+    k = next(i for i, m in enumerate(meta) if m[0] == 'enc' and len(m[1]) == 2 and m[1][0] == 1)
+    res.sample({'op': lines[k], 'implementation': impl[k], 'model': model[k]})
     res.sample({'op': lines[-1][:20], 'implementation': impl[-1][:60] + '…', 'model': model[-1][:60] + '…'})
     k = next(i for i, m in enumerate(meta) if m[0] == 'dec' and m[1][1] == 'corrupt')
     res.sample({'op': lines[k], 'text': meta[k][1][0], 'implementation': impl[k], 'model': model[k]})
